@@ -110,7 +110,7 @@ Section WordSim.
   Lemma wsame_label s S w d1 l1 k1 d2 l2 k2 :
     wrel s S -> In (WLit w d1 l1, k1) (mvs S) -> In (WLit w d2 l2, k2) (mvs S) -> d1 = d2 /\ l1 = l2.
   Proof.
-    intros R H1 H2. destruct Hdom as [_ [_ Hp]]. apply (Hp S (wr_reach _ _ R) w d1 l1 d2 l2 k1 k2); assumption.
+    intros R H1 H2. destruct Hdom as [_ [_ Hp]]. apply (proj1 (Hp S (wr_reach _ _ R)) w d1 l1 d2 l2 k1 k2); assumption.
   Qed.
 
   Lemma wrel_trans s S w dso lvl t :
